@@ -19,6 +19,7 @@ RULE = (
     "complete product image class x candidate class/mode count x candidate state x grid x intensity handling (reduced complete products for "
     "3-D and for noise images, whose fits are slow); fixed noise patterns are deterministic lattices of values, not samples; "
     "non-trivial = the optimiser was entered with a non-zero initial cost"
+    " plus the plural entry point on every case, perturbed candidates one period outside, cylindrical z ranges excluding 0, and all ordered pairs of six probe fits handed ONE optimiser-options dict"
 )
 ASSUMPTIONS = [
     "the objective is the one handed to scipy's least_squares (0.5*sum residual^2 over the fit region chosen by the library)",
